@@ -19,6 +19,7 @@ open Gozod.GenEmit Gozod.TagParser
 /-- parameter kinds (reflect.Kind of the parameter type; `*regexp.Regexp`; the empty interface; anything else) -/
 inductive PK
   | basic (b : Basic) | regexp | any | other
+  | schemaOf        -- `core.ZodType[V]`, V the constructor's last type argument (gozod.Record's value schema)
   deriving DecidableEq, Repr
 
 structure MethodSig where
@@ -41,6 +42,7 @@ structure CtorSig where
   params : List PK
   variadic : Bool
   result : Option Nat
+  out : String := ""        -- the Go type T of the `core.ZodType[T]` the result implements; `$1` = the last type argument
   deriving Repr
 
 structure MethodTable where
@@ -112,6 +114,7 @@ def fits : ArgClass → PK → Option Bool
   | .other, _ => none
   | _, .any => some true
   | _, .other => some false
+  | _, .schemaOf => some false
   | .intLit n, .basic b => some (intFits n b)
   | .floatLit integral w, .basic b => some (isFloaty b || (integral && intFits w b))
   | .strLit, .basic b => some (b == .string)
@@ -152,10 +155,6 @@ def stepCls (T : MethodTable) (ty : Nat) (name : String) (args : List ArgClass) 
 
 def step (T : MethodTable) (ty : Nat) (c : Call) : Step := stepCls T ty c.name (c.args.map Arg.cls)
 
-def hasInfix (p : Str) : Str → Bool
-  | [] => p.isEmpty
-  | c :: rest => p.isPrefixOf (c :: rest) || hasInfix p rest
-
 def MethodTable.ctor? (T : MethodTable) (name : String) : Option CtorSig := T.ctors.find? (·.name == name)
 
 /-- a constructor called as `gozod.Name(<n arguments, none of a basic kind>)` without explicit instantiation -/
@@ -164,12 +163,38 @@ def callPlain (T : MethodTable) (name : String) (nargs : Nat) : Option Nat :=
   | some c => if c.inferable ∧ (c.params.length = nargs) ∧ c.params.all (fun p => p == .any || p == .other) then c.result else none
   | none => none
 
-/-- the type of a constructor expression (`none`: does not type-check) -/
-def ctorType (T : MethodTable) : CExpr → Option Nat
+/-- `$1` in an output pattern replaced by the type argument -/
+def substOut : List Char → Str → Str
+  | [], _ => []
+  | '$' :: '1' :: rest, a => a ++ substOut rest a
+  | c :: rest, a => c.toNat :: substOut rest a
+
+/-- the Go type a constructor expression's schema parses to (the `V` of the `core.ZodType[V]` it implements), read off
+    the regenerated table: the constructor's output pattern with the written type argument -/
+def outOf (T : MethodTable) : CExpr → Option Str
+  | .prim b => (T.ctor? b.ctorName).map fun c => substOut c.out.toList []
+  | .primPtr b => (T.ctor? (b.ctorName ++ "Ptr")).map fun c => substOut c.out.toList []
+  | .any => (T.ctor? "Any").map fun c => substOut c.out.toList []
+  | .time => (T.ctor? "Time").map fun c => substOut c.out.toList []
+  | .timePtr => (T.ctor? "TimePtr").map fun c => substOut c.out.toList []
+  | .fromStruct t => (T.ctor? "FromStruct").map fun c => substOut c.out.toList t
+  | .fromStructPtr t => (T.ctor? "FromStructPtr").map fun c => substOut c.out.toList t
+  | .slice ptr (some t) _ => (T.ctor? (if ptr then "SlicePtr" else "Slice")).map fun c => substOut c.out.toList t
+  | .record ptr (some v) _ => (T.ctor? (if ptr then "RecordPtr" else "Record")).map fun c => substOut c.out.toList v
+  | _ => none
+
+/-- a written type argument is usable in the file: it names package `time` only if the file imports it -/
+def targOK (timeImported : Bool) (t : Str) : Bool := timeImported || !hasInfix (asc "time.") t
+
+/-- the type of a constructor expression (`none`: does not type-check); `timeImported`: the file imports "time" -/
+def ctorType (T : MethodTable) (timeImported : Bool) : CExpr → Option Nat
   | .prim b => callPlain T b.ctorName 0
+  | .primPtr b => callPlain T (b.ctorName ++ "Ptr") 0
   | .any => callPlain T "Any" 0
   | .time => callPlain T "Time" 0
+  | .timePtr => callPlain T "TimePtr" 0
   | .uuid => callPlain T "UUID" 0
+  | .url => callPlain T "URL" 0
   | .enum vals =>
     -- gozod.Enum("a", "b"): the type parameter is inferred from the (variadic) arguments: there must be one
     match T.ctor? "Enum" with
@@ -177,9 +202,13 @@ def ctorType (T : MethodTable) : CExpr → Option Nat
     | none => none
   | .fromStruct t =>
     -- gozod.FromStruct[X](): explicit instantiation of the one type parameter, no arguments;
-    -- X = `time.Time` (from `*time.Time`, `map[K]*time.Time` …) names a package the file never imports
+    -- X = `time.Time` (from `*time.Time`, `map[K]*time.Time` …) names a package the file may not import
     match T.ctor? "FromStruct" with
-    | some c => if c.typeParams = 1 ∧ c.params.isEmpty ∧ !hasInfix (asc "time.") t then c.result else none
+    | some c => if c.typeParams = 1 ∧ c.params.isEmpty ∧ targOK timeImported t then c.result else none
+    | none => none
+  | .fromStructPtr t =>
+    match T.ctor? "FromStructPtr" with
+    | some c => if c.typeParams = 1 ∧ c.params.isEmpty ∧ targOK timeImported t then c.result else none
     | none => none
   | .lazyStruct _ =>
     -- gozod.Lazy(func() gozod.ZodType[any] { return gozod.FromStruct[N]() }): the returned *ZodStruct must
@@ -193,14 +222,32 @@ def ctorType (T : MethodTable) : CExpr → Option Nat
         | none => none
       | none => none
     | _, _ => none
-  | .slice e =>
-    match ctorType T e with
-    | some _ => callPlain T "Slice" 1
+  | .slice ptr targ e =>
+    let name := if ptr then "SlicePtr" else "Slice"
+    match ctorType T timeImported e with
     | none => none
-  | .record e =>
-    match ctorType T e with
-    | some _ => callPlain T "Record" 1
+    | some _ =>
+      match targ with
+      | none => callPlain T name 1                 -- gozod.Slice(e): T occurs in no parameter, it cannot be inferred
+      | some t =>
+        -- gozod.Slice[T](e): one type parameter, written; the element schema is an `any`
+        match T.ctor? name with
+        | some c => if c.typeParams = 1 ∧ c.params == [.any] ∧ targOK timeImported t then c.result else none
+        | none => none
+  | .record ptr targ e =>
+    let name := if ptr then "RecordPtr" else "Record"
+    match ctorType T timeImported e with
     | none => none
+    | some _ =>
+      match targ with
+      | none => callPlain T name 1                 -- gozod.Record(e): one argument short
+      | some v =>
+        -- gozod.Record[string, V](gozod.String(), e): both type parameters written, key schema an `any`,
+        -- value schema a core.ZodType[V]: the output type of e must be V itself
+        match T.ctor? name, callPlain T "String" 0 with
+        | some c, some _ =>
+          if c.typeParams = 2 ∧ c.params == [.any, .schemaOf] ∧ targOK timeImported v ∧ outOf T e = some v then c.result else none
+        | _, _ => none
 
 def runCalls (T : MethodTable) : Nat → List Call → Step
   | ty, [] => .ok ty
@@ -210,8 +257,8 @@ def runCalls (T : MethodTable) : Nat → List Call → Step
     | s => s
 
 /-- **the typing judgement**: `some true` the expression type-checks, `some false` it does not, `none` not judged -/
-def wellTyped (T : MethodTable) (c : Chain) : Option Bool :=
-  match ctorType T c.ctor with
+def wellTyped (T : MethodTable) (timeImported : Bool) (c : Chain) : Option Bool :=
+  match ctorType T timeImported c.ctor with
   | none => some false
   | some ty =>
     match runCalls T ty c.calls with
@@ -224,12 +271,92 @@ def wellTyped (T : MethodTable) (c : Chain) : Option Bool :=
 def _root_.Gozod.GenEmit.Arg.usesRegexp : Arg → Bool
   | .regexp _ => true | _ => false
 
-/-- packages an emitted expression refers to, beside gozod (`time` through `gozod.FromStruct[time.Time]()`) -/
+/-- packages an emitted expression refers to, beside gozod (`time` through a type argument naming `time.Time`) -/
 def usesPkg (c : Chain) (pkg : String) : Bool :=
-  (pkg == "regexp" && c.calls.any fun k => k.args.any Arg.usesRegexp)
+  (pkg == "regexp" && c.calls.any fun k => k.args.any Arg.usesRegexp) ||
+  (pkg == "time" && hasInfix (asc "time.") c.ctor.render)
 
 /-- every import written for the struct is used by some field's expression -/
-def importsUsed (rules : List (List Rule)) (chains : List Chain) : Bool :=
-  (importsOf rules).all fun p => chains.any (usesPkg · p)
+def importsUsed (W : WriterFacts) (rules : List (List Rule)) (chains : List Chain) : Bool :=
+  (importsOf W rules chains).all fun p => chains.any (usesPkg · p)
+
+/-- the file written for a struct imports package `time` -/
+def timeImported (W : WriterFacts) (rules : List (List Rule)) (chains : List Chain) : Bool :=
+  (importsOf W rules chains).contains "time"
+
+/-! ### why not -/
+
+/-- why a generated one-field file does not type-check (the class names of known-findings.txt) -/
+inductive Why | ok | unjudged | ill (cls : String)
+  deriving DecidableEq, Repr
+
+/-- the characters after the last `.` -/
+def afterLastDot : List Char → List Char → List Char
+  | acc, [] => acc
+  | _, '.' :: rest => afterLastDot rest rest
+  | acc, _ :: rest => afterLastDot acc rest
+
+/-- `ZodStruct` from `*types.ZodStruct[main.mtInner,main.mtInner]` -/
+def shortType (go : String) : String :=
+  let s := go.toList.takeWhile (· != '[')
+  String.ofList (afterLastDot s s)
+
+/-- the first reason a constructor expression is rejected (inner expressions first) -/
+def ctorWhy (T : MethodTable) (ti : Bool) : CExpr → Option String
+  | .slice ptr targ e =>
+    match ctorWhy T ti e with
+    | some w => some w
+    | none =>
+      if (ctorType T ti (.slice ptr targ e)).isSome then none
+      else match targ with
+        | none => some "slice-cannot-infer-T"
+        | some t => if !targOK ti t then some "time-not-imported" else some "slice-arguments"
+  | .record ptr targ e =>
+    match ctorWhy T ti e with
+    | some w => some w
+    | none =>
+      if (ctorType T ti (.record ptr targ e)).isSome then none
+      else match targ with
+        | none => some "record-arguments"
+        | some v => if !targOK ti v then some "time-not-imported" else some "record-value-type"
+  | .lazyStruct n => if (ctorType T ti (.lazyStruct n)).isSome then none else some "lazy-self-reference"
+  | .fromStruct t => if (ctorType T ti (.fromStruct t)).isSome then none else if !targOK ti t then some "time-not-imported" else some "no-constructor"
+  | .fromStructPtr t => if (ctorType T ti (.fromStructPtr t)).isSome then none else if !targOK ti t then some "time-not-imported" else some "no-constructor"
+  | .enum vals => if (ctorType T ti (.enum vals)).isSome then none else some "enum-without-member"
+  | e => if (ctorType T ti e).isSome then none else some "no-constructor"
+
+/-- the first call that is rejected -/
+def callsWhy (T : MethodTable) : Nat → List Call → Why
+  | _, [] => .ok
+  | ty, c :: cs =>
+    match T.method? ty c.name with
+    | none =>
+      let tn := shortType ((T.types[ty]?.map (·.goName)).getD "")
+      .ill (if tn == "ZodEnum" then "enum+method" else "no-method:" ++ tn ++ "." ++ c.name)
+    | some m =>
+      match step T ty c with
+      | .ok ty' => callsWhy T ty' cs
+      | .unjudged => .unjudged
+      | .illTyped =>
+        match c.args.map Arg.cls, m.params with
+        | [.intLit _], [.basic _] => .ill "constant-not-representable:overflows-int64"
+        | [.floatLit _ _], [.basic _] => .ill "constant-not-representable:float-as-integer"
+        | _, _ => .ill ("argument:" ++ c.name)
+
+/-- the judgement on the file written for `type <sn> struct { F <t> \`gozod:"…"\` }`, with its reason -/
+def whyChain (T : MethodTable) (W : WriterFacts) (rs : List Rule) (c : Chain) : Why :=
+  let ti := timeImported W [rs] [c]
+  -- the compiler lists its errors by position: the import block comes first
+  if !importsUsed W [rs] [c] then .ill "unused-import" else
+  match ctorWhy T ti c.ctor, ctorType T ti c.ctor with
+  | some w, _ => .ill w
+  | none, none => .ill "no-constructor"
+  | none, some ty => callsWhy T ty c.calls
+
+def why (T : MethodTable) (W : WriterFacts) (t : Ty) (sn : String) (rs : List Rule) : Why :=
+  match emitChain W t (asc sn) rs with
+  | none => .unjudged
+  | some c => whyChain T W rs c
+
 
 end Gozod.GenTyped
